@@ -101,6 +101,7 @@ theorem ctf_main (fmt : CtfFmt) (hfmt : fmt ≠ .astar) (x : CtfExtras) (m : PMa
       rw [hwf.ids a]
       cases ni <;> simp
   have hrec := reconcile_rekey (m.pts.map (·.phaseId)) (real m) ((real m).map (·.id)) ni hu hwf.pos (by simp)
+    (fun p hp => by have := hwf.pos p.id (List.mem_map_of_mem hp); omega)
   rw [rekey_self, ← hwf.phases] at hrec
   have htake : (phaseLinesOf (real m) x.laue x.sg).take (real m).length = phaseLinesOf (real m) x.laue x.sg :=
     List.take_of_length_le (by rw [hll])
@@ -253,6 +254,7 @@ theorem ctf_astar_main (x : CtfExtras) (m : PMap) (ni : Bool) (hwf : AstarWF x m
       rw [hwf.ids a]
       cases ni <;> simp
   have hrec := reconcile_rekey (m.pts.map (·.phaseId)) (real m) ((real m).map (·.id)) ni hu hwf.pos (by simp)
+    (fun p hp => by have := hwf.pos p.id (List.mem_map_of_mem hp); omega)
   rw [rekey_self, ← hwf.phases] at hrec
   have htake : (phaseLinesOf (real m) x.laue x.sg).take (real m).length = phaseLinesOf (real m) x.laue x.sg :=
     List.take_of_length_le (by rw [hll])
